@@ -1,6 +1,7 @@
 import AvroModel
 import AvroProofs.Lemmas.SpecEncode
 import AvroProofs.Lemmas.Prim
+import AvroProofs.Lemmas.VarintAny
 /-!
 # C02 — binary encoding follows the Avro specification
 
@@ -30,6 +31,42 @@ theorem decode_complete (cfg : Cfg) (env : Names) (hl : cfg.lim < 2^63) (h1 : 1 
     (s : Schema) (v : Value) (enc : Bytes) (h : SpecEnc cfg env s v enc) :
     ∃ n, ∀ fuel, n ≤ fuel → ∀ rest, decode cfg env fuel s (enc ++ rest) = .ok (v, rest) :=
   spec_dc hl h1 h2 primFacts h
+
+/-- **every base-128 digit string is read**, not only the shortest one the crate writes: up to ten bytes, value below
+2^64, with or without trailing zero digits (`SpecEnc` itself relates a number to its shortest form only) -/
+theorem varint_any_digits (ds : List Nat) (last : Nat) (hd : ∀ d ∈ ds, d < 128) (hlast : last < 128)
+    (hlen : ds.length + 1 ≤ 10) (hv : digitsVal (ds ++ [last]) < 2^64) (rest : Bytes) :
+    decodeVar (digitBytes ds last ++ rest) = .ok (digitsVal (ds ++ [last]), rest) :=
+  decodeVar_digits ds last hd hlast hlen hv rest
+
+/-- **a zero-padded long is read to the same number**: what the crate writes for `n` is a digit string, and the same
+digits followed by `k + 1` zero digits (another writer's non-canonical form) are read back as `n` -/
+theorem padded_long_read (n : Int) (hn : i64ok n) (k : Nat) (rest : Bytes) :
+    ∃ ds last, encLong n = digitBytes ds last ∧
+      (ds.length + 1 + (k + 1) ≤ 10 →
+        decLong (digitBytes (ds ++ last :: List.replicate k 0) 0 ++ rest) = .ok (n, rest)) := by
+  obtain ⟨ds, last, he, hv, hds, hl, _⟩ := encodeVarAux_digits 10 (zig n) (by omega) (Nat.lt_of_lt_of_le (zig_lt n) (by decide))
+  refine ⟨ds, last, he, ?_⟩
+  intro hlen
+  have hval : digitsVal ((ds ++ last :: List.replicate k 0) ++ [0]) = zig n := by
+    have e : (ds ++ last :: List.replicate k 0) ++ [0] = (ds ++ [last]) ++ List.replicate (k + 1) 0 := by
+      simp [List.replicate_succ']
+    rw [e, digitsVal_pad, hv]
+  have hall : ∀ d ∈ ds ++ last :: List.replicate k 0, d < 128 := by
+    intro d hd
+    rcases List.mem_append.mp hd with h | h
+    · exact hds d h
+    · rcases List.mem_cons.mp h with rfl | h
+      · exact hl
+      · have := List.eq_of_mem_replicate h; omega
+  have := decodeVar_digits (ds ++ last :: List.replicate k 0) 0 hall (by omega)
+    (by simp at hlen ⊢; omega) (by rw [hval]; exact zig_lt n) rest
+  unfold decLong
+  rw [this, hval]
+  simp only [zag_zig n hn.1 hn.2]
+
+/-- non-vacuity: `0x82 0x80 0x00` (the digits 2, 0, 0) is read as the long 1, like the canonical `0x02` -/
+example : decLong [0x82, 0x80, 0x00] = .ok (1, []) ∧ decLong [0x02] = .ok (1, []) := ⟨by rfl, by rfl⟩
 
 /-! non-vacuity: `[1, 2, 3]` written as a negative-count block of two items (with its byte size)
 followed by a positive-count block of one item is specification-legal -/
